@@ -3,7 +3,8 @@
 Theorems: PepperProps/C07.lean (propagate_exact, order_independent, pre_of_preB) about the model
 PepperModel/Closure.lean.  Correspondence: real `propagate_constraints` vs model op `closure` on the
 same graphs.  Oracle: an independent BFS over (item, parity) states applied to the implementation's
-output, plus re-running the implementation under shuffled key / adjacency orders."""
+output, plus re-running the implementation under shuffled key / adjacency orders, plus registering the same links one
+by one through the front-end's `Constraints` store (init / add_eq / add_wc / propagate) in random order."""
 import itertools
 import json
 
@@ -79,6 +80,38 @@ def run_impl(keys, eq, wc):
     return {"ok": {k: (set(ea[k]), set(wa[k])) for k in ea}}
 
 
+def run_store(keys, eq, wc, rng):
+    """the same graph registered link by link through the designer front-end's store
+    (Constraints.init / add_eq / add_wc / propagate), links in random order and orientation"""
+    from peppercompiler.design.constraint_load import Constraints
+    c = Constraints()
+    for k in keys:
+        c.init(k)
+    links = []
+    pos = {k: i for i, k in enumerate(keys)}
+    for kind, d in (("eq", eq), ("wc", wc)):
+        for a in keys:
+            for b in set(d[a]):
+                if b not in pos:
+                    return None
+                if pos[a] < pos[b]:
+                    links += [(kind, a, b)] * d[a].count(b)
+                elif a == b:
+                    links += [(kind, a, a)] * ((d[a].count(a) + 1) // 2)
+    rng.shuffle(links)
+    for kind, a, b in links:
+        if rng.random() < 0.5:
+            a, b = b, a
+        (c.add_eq if kind == "eq" else c.add_wc)(a, b)
+    try:
+        c.propagate()
+    except AssertionError:
+        return {"err": "assert"}
+    except KeyError:
+        return {"err": "keyerror"}
+    return {"ok": {k: (set(c.eq[k]), set(c.wc[k])) for k in c.eq}}
+
+
 def check_case(res, keys, eq, wc, rng, tag):
     """oracle on the real code; returns the impl result for the correspondence."""
     res.evaluations += 1
@@ -106,6 +139,13 @@ def check_case(res, keys, eq, wc, rng, tag):
             return r
     if set(r["ok"]) != set(keys):
         res.violations.append({"what": "result has entries for non-keys", "input": inp, "sig": "C07:junk", "cmd": cmd})
+    rs = run_store(keys, eq, wc, rng)
+    if rs is not None and rs != r:
+        bad = next((k for k in keys if "ok" not in rs or rs["ok"].get(k) != spec[k]), None)
+        res.violations.append({"what": "links registered through the Constraints store (init / add_eq / add_wc / propagate) do not give the "
+                                       "parity closure (item %r)" % (bad,), "input": inp,
+                               "observed": repr(rs["ok"].get(bad)) if "ok" in rs else rs, "expected": repr(spec.get(bad)),
+                               "sig": "C07:store-closure", "cmd": "from peppercompiler.design.constraint_load import Constraints  # init, add_eq, add_wc, propagate"})
     # order independence on the real code
     keys2 = list(keys); rng.shuffle(keys2)
     eq2 = {k: rng.sample(eq[k], len(eq[k])) for k in keys2}
